@@ -143,6 +143,25 @@ def run(ctx, prog, res):
         missing = [x for x in ("day_selector", "time_selector", "kind") if x not in rd]
         r2.check(not missing, {"tail_scan": nm, "predicate_reads": sorted(rd)}, "C02.R2:is_constant:tail-scan",
                  "the predicate of is_constant's scan over the trailing rules (`%s`) never reads %s: rules that differ in it are skipped as if they repeated the last rule - e.g. `24/7; Dec 25 off; Jan 1 open` is declared constant" % (nm, missing), lib.where_of(clo))
+    # ... and where a trailing fallback rule is taken for the whole answer, the rules it leaves in place are looked at
+    # for their kind *and* their time span: a closed span that passes midnight is kept on top of the fallback the next day
+    keeps = []
+    for fid in prog.with_closures(ic.id):
+        f = prog.fns[fid]
+        for _, t in f.calls():
+            nm = (t.get("callee") or {}).get("name") or ""
+            if nm in ("any", "all") and "RuleSequence" in str((t.get("callee") or {}).get("path_args")):
+                for a in t["args"]:
+                    c = flow.closure_of_operand(f, a)
+                    if c:
+                        keeps.append((nm, prog.fns[c]))
+    for nm, clo in keeps:
+        rd = {fl for (ad, fl) in lib.reads(prog, clo.id, RS) if ad == "RuleSequence"}
+        if "kind" not in rd:
+            continue
+        r2.check("time_selector" in rd, {"fallback_check": nm, "predicate_reads": sorted(rd)}, "C02.R2:is_constant:fallback-keeps",
+                 "is_constant decides that the rules before a trailing fallback rule leave every day to it by their kind alone (`%s` over %s): a closed rule whose span passes midnight spills onto the next day, where schedule_at keeps it on top of the fallback - `Mo 22:00-26:00 closed || 24/7 open` is declared constant but is closed on Tuesday until 02:00" % (nm, sorted(rd)), lib.where_of(clo))
+    r2.check(any("kind" in {fl for (ad, fl) in lib.reads(prog, c.id, RS)} for _, c in keeps), {"fallback_checks": len(keeps)}, "C02.R2:is_constant:fallback-keeps:ANCHOR", "ANCHOR: is_constant no longer checks the rules a trailing fallback leaves in place", lib.where_of(ic))
     r2.check(bool(scans), {"tail_scans": len(scans)}, "C02.R2:is_constant:tail-scan:ANCHOR", "ANCHOR: is_constant no longer scans the trailing rules with a predicate", lib.where_of(ic))
 
     # R3 -------------------------------------------------------------------------------------
